@@ -453,7 +453,8 @@ func restDecodeTimeout(timeout string) (time.Duration, error) {
 		return 0, nil
 	}
 	val, err := strconv.ParseFloat(timeout, 64)
-	if err != nil {
+	if err != nil && !(errors.Is(err, strconv.ErrRange) && val > 0) {
+		// (a number too large for a float64 is still a number: it is clamped below)
 		return 0, fmt.Errorf("invalid timeout %q: %w", timeout, err)
 	}
 	if val < 0 || val != val || strings.ContainsAny(timeout, "xXpPiIn_") {
